@@ -61,3 +61,18 @@ Definition vars_agree (sels : list sel) (frags : list fragdef) (stepvars : list 
            (dependent : bool) (declared : list string) : bool :=
   subset (step_used sels frags) stepvars && subset stepvars (step_used sels frags) &&
   subset (step_declared stepvars opvars dependent) declared && subset declared (step_declared stepvars opvars dependent).
+
+(* ... and every definition the step's query carries is the client's own definition of that
+   variable (type, default value, directives, compared as printed), or `$id: ID!` of a follow-up
+   fetch (plan.go:248-255 appends the operation's *ast.VariableDefinition itself) *)
+Fixpoint assoc_s (n : string) (l : list (string * string)) : option string :=
+  match l with [] => None | (k, v) :: r => if String.eqb k n then Some v else assoc_s n r end.
+
+Definition defs_agree (opdefs stepdefs : list (string * string)) (dependent : bool) (stepvars : list string) : bool :=
+  let own := filter (fun n => match assoc_s n opdefs with Some _ => true | None => false end) stepvars in
+  forallb (fun d => if dependent && String.eqb (fst d) "id" && negb (str_mem "id" own)
+                    then String.eqb (snd d) "ID!"
+                    else match assoc_s (fst d) opdefs with
+                         | Some t => String.eqb t (snd d)
+                         | None => false
+                         end) stepdefs.
